@@ -293,11 +293,11 @@ def replay(ctx, o):
         except Exception as e: return False, 'replay needs the seed hook libphysica_verif_mc_seed: %r' % e
         if r0['status'] != 'ok' or r1['status'] != 'ok': return False, 'native runs: %s / %s (seed hook missing?)' % (r0.get('error', r0['status']), r1.get('error', r1['status']))
         return r0['ret'] != r1['ret'], 'native %s with seed %d on region %s: fresh process %r; after two other integrations %r' % ('Miser' if meth == 8 else 'Vegas', seed, lo + hi, r0['ret'], r1['ret'])
-    meth = m.get('method', 6); pts = []
-    def fv(p, n): pts.append([p[i] for i in range(n)]); return 2.5
-    r = nat.call(so, 'verif_c14_mc', [('i32', meth), ('u32', d), ('dbl[]', lo + hi), ('i32', max(m.get('ncall', 3), 3))], fcb=fv, fcb_name='verif_fv_ptr', fcb_sig=sigv)
+    meth = m.get('method', 6)
+    def fv(p, n): fv.note = [p[i] for i in range(n)]; return 2.5
+    r = nat.call(so, 'verif_c14_mc', [('i32', meth), ('u32', d), ('dbl[]', lo + hi), ('i32', max(m.get('ncall', 3), 200))], fcb=fv, fcb_name='verif_fv_ptr', fcb_sig=sigv)
     if r['status'] != 'ok': return True, 'native MC call ended: ' + r['status']
     vol = 1.0
     for a, b in zip(lo, hi): vol *= b - a
-    out = [c[0] for c in r['calls']]
-    return abs(r['ret'] - 2.5 * vol) > 1e-9 * abs(2.5 * vol), 'native MC integral of the constant 2.5 over %s = %r, volume*c = %r' % (lo + hi, r['ret'], 2.5 * vol)
+    out = [c[2] for c in r['calls'] if len(c) > 2 and any(c[2][k] < lo[k] or c[2][k] > hi[k] for k in range(min(d, len(c[2]))))]
+    return abs(r['ret'] - 2.5 * vol) > 1e-9 * abs(2.5 * vol) or bool(out), 'native MC integral of the constant 2.5 over %s = %r, volume*c = %r; %d of %d evaluation points outside the region%s' % (lo + hi, r['ret'], 2.5 * vol, len(out), len(r['calls']), (', first %s' % out[0]) if out else '')
